@@ -1,6 +1,6 @@
 (* C20 — property theorems only. Each is closed by [exact] of a lemma of Proofs.v. *)
 From Coq Require Import List ZArith QArith Bool Permutation.
-From Gst Require Import lib.QAux C20.Model C20.Spec C20.Proofs C20.Generic C20.Cyclic.
+From Gst Require Import lib.QAux C20.Model C20.Spec C20.Proofs C20.Generic C20.Cyclic C20.Scale.
 Import ListNotations.
 Local Open Scope Q_scope.
 
@@ -39,6 +39,12 @@ Theorem C20_orientation : forall pts q,
   ~ on_boundary pts q -> inside2d (rev pts) q = inside2d pts q.
 Proof. exact inside2d_rev. Qed.
 Print Assumptions C20_orientation.
+
+(* the answer does not depend on the units of the axes: scaling x by cx > 0 and y by cy > 0 (polygon and query alike) *)
+Theorem C20_axis_scaling : forall cx cy pts q, 0 < cx -> 0 < cy ->
+  ~ on_boundary pts q -> inside2d (map (sc cx cy) pts) (sc cx cy q) = inside2d pts q.
+Proof. exact inside2d_scale. Qed.
+Print Assumptions C20_axis_scaling.
 
 (* the answer does not depend on the vertex the ring starts with (any rotation of the open vertex list) *)
 Theorem C20_cyclic_shift : forall k l q, (k <= length l)%nat ->
